@@ -78,13 +78,15 @@ Definition run_adapt_fresh (ops : list (list Z)) (th : list Z) : string :=
             ++ "|vg=" ++ show_zs (avg Z Z s)
   end.
 
-(* ---- VSQS: a slot is (parameter index, coefficient id); a dropped slot = parameter index listed in `zeros` ---- *)
+(* ---- VSQS: a slot is (parameter index, coefficient id); `dropped` lists the slots whose
+        |coeff*time| is below the cut of get_exponentiated_qubit_operator_circuit at build time ---- *)
 Definition slot := (nat * Z)%type.
 Definition show_slot (s : slot) : string := show_nat (fst s) ++ "*" ++ show_Z (snd s).
 Definition gu_slot (t : nat) (c : Z) : slot := (t, c).
-Definition gb_slot (zeros : list nat) (t : nat) (c : Z) : option slot := if nmem t zeros then None else Some (t, c).
-Definition run_vsqs (c : vsqs_cfg Z) (zeros0 : list nat) (nth0 : nat) (nth1 : nat) : string :=
-  let v0 := vsqs_build nat Z slot (gb_slot zeros0) c (seq 0 nth0) 0 in
+Definition gb_slot (dropped : list slot) (t : nat) (c : Z) : option slot :=
+  if existsb (fun s : slot => Nat.eqb (fst s) t && Z.eqb (snd s) c) dropped then None else Some (t, c).
+Definition run_vsqs (c : vsqs_cfg Z) (dropped : list slot) (nth0 : nat) (nth1 : nat) : string :=
+  let v0 := vsqs_build nat Z slot (gb_slot dropped) c (seq 0 nth0) 0 in
   "built=" ++ show_nat (length v0) ++ "|n_var_gates=" ++ show_nat (n_var_gates Z c)
   ++ "|n_var_params=" ++ show_nat (vsqs_n_var_params Z c)
   ++ "|upd=" ++ show_res (fun v => join "," (map show_slot v)) (vsqs_update nat Z slot gu_slot c v0 (seq 0 nth1)).
